@@ -182,6 +182,28 @@ def coq_build_prop(pid, timeout, allowed_axioms):
                 bad_axioms=bad_ax, failed=failed_thm, rc=rc)
 
 
+def coqchk_prop(pid, allowed_axioms, timeout=3000):
+    """thorough tier: re-check Props/<pid>.vo and everything it depends on with the independent checker"""
+    rc, out = sh("coqchk -silent -o -Q . AG AG.Props.%s" % pid, cwd=COQ, timeout=timeout)
+    axioms, bad, section = [], [], None
+    for line in out.splitlines():
+        m = re.match(r"^\* (Axioms|Constants/Inductives relying on type-in-type|Constants/Inductives relying on unsafe "
+                     r"\(co\)fixpoints|Inductives whose positivity is assumed): ?(.*)$", line)
+        if m:
+            section = m.group(1)
+            if m.group(2).strip() not in ("<none>", ""):
+                (axioms if section == "Axioms" else bad).append(m.group(2).strip())
+        elif section and line.startswith("    ") and line.strip():
+            (axioms if section == "Axioms" else bad).append(line.strip())
+        elif line.startswith("* "):
+            section = None
+    short = lambda a: a.split(".")[-1]
+    allowed = {short(a) for a in allowed_axioms}
+    not_allowed = [a for a in axioms if short(a) not in allowed]
+    return dict(ok=(rc == 0 and not bad and not not_allowed), rc=rc, axioms=axioms, unsafe=bad,
+                not_allowed=not_allowed, tail=out[-1500:])
+
+
 def build_modelrun(unit="det", ocaml_pkgs="zarith", ocaml_flags=""):
     """extract unit `unit` (coq/Extract/Ex_<unit>.v) and build its runner ocaml/run_<unit>.ml
     (rebuilt when any .v or .ml is newer)"""
